@@ -200,7 +200,9 @@ const CHAIN_LENGTHS: [usize; 7] = [1, 4, 8, 16, 24, 32, 40];
 /// enumerated: chains of aliases (declared forwards or backwards, ending in a record, a primitive, an undefined
 /// name or in themselves) next to recursive types of fan-out 0..3 and chains of locals - analysis time must
 /// not depend on the chain length other than linearly. A blow-up shows as a slow case (exit 2).
-pub fn check_chain(i: u64, rc: &mut RCase) -> Result<(), Failure> {
+/// the text of member `i` of the definition_chains family, its description, and whether it falls under the
+/// recorded finding (unresolvable recursive type next to an alias chain)
+pub fn chain_source(i: u64) -> (String, String, bool) {
     let mut k = i as usize;
     let len = CHAIN_LENGTHS[k % CHAIN_LENGTHS.len()];
     k /= CHAIN_LENGTHS.len();
@@ -230,19 +232,36 @@ pub fn check_chain(i: u64, rc: &mut RCase) -> Result<(), Failure> {
         let fields: String = (0..fan).map(|f| format!(" f{}: Tree,", f)).collect();
         src.push_str(&format!("type Tree {{{} leaf: {}, }}\n", fields, leaf));
     }
-    // recorded: a recursive type that can never resolve is analysed again on every pass the alias chain needs, and
-    // every pass nests the previous one inside it (fan-out 2: time and memory double per link)
-    if leaf == "Missing" && fan >= 2 && len >= 12 && end <= 1 && !rc.strict && rc.kf.is_known(rc.property, "analyze_exponential:unresolvable_recursive_type_next_to_alias_chain") {
-        let _ = rc.tolerated("analyze_exponential:unresolvable_recursive_type_next_to_alias_chain");
-        rc.label("excluded:unresolvable_recursive_type_next_to_alias_chain");
-        return Ok(());
-    }
     src.push_str(&defs.concat());
     if used {
         src.push_str("tx t(a: Int) {\n  output {\n    to: P,\n    amount: Ada(a),\n    datum: A0 { x: a, },\n  }\n}\n");
     }
+    // recorded: a recursive type that can never resolve is analysed again on every pass the alias chain needs, and
+    // every pass nests the previous one inside it (fan-out 2: time and memory double per link)
+    let recorded = leaf == "Missing" && fan >= 2 && len >= 12 && end <= 1;
+    (src, format!("definition_chain:len={},fan={},end={},backwards={},used={},leaf={}", len, fan, end, backwards, used, leaf), recorded)
+}
+
+pub const CHAIN_COUNT: u64 = (CHAIN_LENGTHS.len() * 4 * 4 * 2 * 2 * 3) as u64;
+
+pub fn check_chain(i: u64, rc: &mut RCase) -> Result<(), Failure> {
+    let (src, desc, recorded) = chain_source(i);
+    if recorded && !rc.strict && rc.kf.is_known(rc.property, "analyze_exponential:unresolvable_recursive_type_next_to_alias_chain") {
+        let _ = rc.tolerated("analyze_exponential:unresolvable_recursive_type_next_to_alias_chain");
+        rc.label("excluded:unresolvable_recursive_type_next_to_alias_chain");
+        return Ok(());
+    }
     rc.label("definition_chains");
-    judge(&src, &format!("definition_chain:len={},fan={},end={},backwards={},used={},leaf={}", len, fan, end, backwards, used, leaf), rc)
+    judge(&src, &desc, rc)
+}
+
+/// child-process entry: parse and analyse one text (no exclusions: the parent decides what is sent)
+pub fn child_front(bytes: &[u8]) -> String {
+    let src = String::from_utf8_lossy(bytes).to_string();
+    match front::eval_opts(&src, false).0 {
+        Front::ParsePanic(p) | Front::AnalyzePanic(p) => format!("panic:{} {}", p.sig(), p.message),
+        _ => "ok".into(),
+    }
 }
 
 pub fn check_nesting(kind: usize, depth: usize, rc: &mut RCase) -> Result<(), Failure> {
@@ -273,7 +292,46 @@ pub fn run(tier: Tier, seed: u64) -> Report {
     let runs = (run_fragments().len() * RUN_LENGTHS.len() * RUN_SEPS.len() * 4) as u64;
     r.enumerate("repeated_fragments", runs, &|i, rc| check_run(i, rc));
     r.explore("edge_literals", tier.pick(15_000, 400_000), 600, &|t, rc| check_edge_literals(t, rc));
-    r.enumerate("definition_chains", (CHAIN_LENGTHS.len() * 4 * 4 * 2 * 2 * 3) as u64, &|i, rc| check_chain(i, rc));
+    // the definition chains first in a child process with an address-space limit: analysis that runs away in
+    // memory aborts there (an abort that belongs to one input), analysis that does not return is killed
+    let mut ran_away: Vec<u64> = vec![];
+    if !r.failed() {
+        use crate::runner::{run_isolated_capped, ChildOutcome};
+        let known = r.kf.is_known("C12", "analyze_exponential:unresolvable_recursive_type_next_to_alias_chain");
+        let members: Vec<u64> = (0..CHAIN_COUNT).filter(|i| !(known && chain_source(*i).2)).collect();
+        let inputs: Vec<Vec<u8>> = members.iter().map(|i| chain_source(*i).0.into_bytes()).collect();
+        let res = run_isolated_capped("c12_front", &inputs, 8192, 150, Some(8 * 1024 * 1024));
+        for (k, o) in res.iter().enumerate() {
+            match o {
+                ChildOutcome::Died(why) if why.contains("timeout") => {
+                    println!(
+                        "INCONCLUSIVE: property=C12 phase=definition_chains member {} ({}) did not return within 150 s in a child process",
+                        members[k],
+                        chain_source(members[k]).1
+                    );
+                    std::process::exit(2);
+                }
+                ChildOutcome::Died(why) => {
+                    ran_away.push(members[k]);
+                    let i = members[k];
+                    r.found.push(crate::runner::Found {
+                        phase: "definition_chains".into(),
+                        tape: vec![(i >> 48) as u16, (i >> 32) as u16, (i >> 16) as u16, i as u16],
+                        failure: Failure::new(
+                            "abort_with_8GiB_of_address_space",
+                            format!("{}: the child process analysing it died ({}) under an address-space limit of 8 GiB", chain_source(i).1, why),
+                            json!({"class": chain_source(i).1, "source": chain_source(i).0}),
+                        ),
+                    });
+                    break;
+                }
+                _ => {}
+            }
+        }
+        r.phases.push(json!({"phase": "definition_chains_in_child_processes", "cases": inputs.len(), "address_space_limit_kib": 8 * 1024 * 1024}));
+    }
+    let _ = &ran_away;
+    r.enumerate("definition_chains", CHAIN_COUNT, &|i, rc| check_chain(i, rc));
     r.explore("grammar_derived", tier.pick(60_000, 2_000_000), 700, &|t, rc| check_grammar(t, rc));
     r.explore("token_mutation", tier.pick(60_000, 2_000_000), 500, &|t, rc| check_mutation(t, rc));
     r
